@@ -247,13 +247,24 @@ def impl_xfer_recv(env, packets, turbo=False, msgs=None):
     return line, trace, snaps
 
 
-def impl_transfer_recv(env, packets):
+def impl_transfer_recv(env, packets, info_size=None):
+    """info_size: the TransferInfo announcing the total size is handled first (as on a real transfer); the completion logic must
+    not depend on it"""
     import hippolyzer.lib.base.transfer_manager as tm
     from hippolyzer.lib.base.datatypes import UUID
     tid = UUID(int=0x20)
     mgr = tm.TransferManager(_Holder())
     t = tm.Transfer(tid)
     trace, snaps = [], []
+    if info_size is not None:
+        from hippolyzer.lib.base.message.message import Block, Message
+        from hippolyzer.lib.base.templates import TransferStatus, TransferChannelType, TransferTargetType
+        try:
+            mgr._handle_transfer_info(Message("TransferInfo", Block("TransferInfo", TransferID=tid, ChannelType=TransferChannelType.MISC,
+                                                                     TargetType=TransferTargetType.UNKNOWN, Status=TransferStatus.OK,
+                                                                     Size=info_size, Params=b"")), t)
+        except Exception:
+            pass
     for pid, eof, data in packets:
         try:
             mgr._handle_transfer_packet(transfer_message(tid, pid, eof, data), t)
@@ -386,14 +397,17 @@ def run_transfer_case(ctx, env, case, lines, checks, res):
         orders = case.get("orders") or orders_with_dups(n, case["dups"])
         for order in orders:
             pk = [sent[i] for i in order]
-            line, trace, snaps = impl_transfer_recv(env, pk)
-            lines.append("T " + " ".join(_pk(p) for p in pk))
-            c = {"kind": "transfer", "chunks": case["chunks"], "order": list(order)}
-            checks.append(("recv", c, line))
-            v = check_transfer_statement("transfer", n, order, trace, snaps, b"".join(cs))
-            if v:
-                v.update(c)
-                res.impl_violations.append(v)
+            for info in (None, sum(len(c_) for c_ in cs)):
+                line, trace, snaps = impl_transfer_recv(env, pk, info_size=info)
+                lines.append("T " + " ".join(_pk(p) for p in pk))
+                c = {"kind": "transfer", "chunks": case["chunks"], "order": list(order)}
+                if info is not None:
+                    c["transfer_info_size"] = info
+                checks.append(("recv", c, line))
+                v = check_transfer_statement("transfer", n, order, trace, snaps, b"".join(cs))
+                if v:
+                    v.update(c)
+                    res.impl_violations.append(v)
     elif kind in ("xraw", "traw"):
         pk = [_parse_pk(s) for s in case["packets"]]
         if kind == "xraw":
